@@ -14,6 +14,9 @@ use k256::elliptic_curve::subtle::CtOption;
 use k256::EncodedPoint;
 use k256::PublicKey;
 
+/// Size in bytes of an affine coordinate of the curve.
+const COORDINATE_LEN: usize = 32;
+
 /// A verifier that can handle the
 /// [`JwsAlgorithm::ES256K`](identity_verification::jws::JwsAlgorithm::ES256K)
 /// algorithm.
@@ -49,15 +52,19 @@ impl Secp256K1Verifier {
 
     // Concatenate x and y coordinates as required by
     // EncodedPoint::from_untagged_bytes.
-    let public_key_bytes = jwu::decode_b64(&params.x)
-      .map_err(|err| {
-        SignatureVerificationError::new(SignatureVerificationErrorKind::KeyDecodingFailure).with_source(err)
-      })?
-      .into_iter()
-      .chain(jwu::decode_b64(&params.y).map_err(|err| {
-        SignatureVerificationError::new(SignatureVerificationErrorKind::KeyDecodingFailure).with_source(err)
-      })?)
-      .collect();
+    let x_bytes: Vec<u8> = jwu::decode_b64(&params.x).map_err(|err| {
+      SignatureVerificationError::new(SignatureVerificationErrorKind::KeyDecodingFailure).with_source(err)
+    })?;
+    let y_bytes: Vec<u8> = jwu::decode_b64(&params.y).map_err(|err| {
+      SignatureVerificationError::new(SignatureVerificationErrorKind::KeyDecodingFailure).with_source(err)
+    })?;
+    // Collecting into the fixed-size array below panics unless both coordinates have the size of a field element.
+    if x_bytes.len() != COORDINATE_LEN || y_bytes.len() != COORDINATE_LEN {
+      return Err(SignatureVerificationError::new(
+        SignatureVerificationErrorKind::KeyDecodingFailure,
+      ));
+    }
+    let public_key_bytes = x_bytes.into_iter().chain(y_bytes).collect();
 
     // The JWK contains the uncompressed x and y coordinates, so we can create the
     // encoded point directly without prefixing an SEC1 tag.
